@@ -141,8 +141,10 @@ class Rules:
             fn(*a, **k)
         except AnalysisError as e:
             self.chk.error(name, str(e))
-        except RecursionError as e:  # pragma: no cover
-            self.chk.error(name, 'recursion: %s' % e)
+        except Exception as e:  # a crash of one rule is an analysis error of that rule, never a verdict
+            import traceback
+            tb = traceback.extract_tb(e.__traceback__)[-1]
+            self.chk.error(name, 'internal %s: %s (%s:%d)' % (type(e).__name__, e, tb.filename.split('/')[-1], tb.lineno))
 
 
 def need(cond, msg):
